@@ -45,7 +45,8 @@ SERVICES = {1: (0x1111, 1, 1, 0), 2: (0x1111, 2, 1, 0), 3: (0x2222, 1, 1, 7), 4:
 SOURCES = {"A": ("10.0.5.1", 30490), "B": ("10.0.5.1", 30491)}  # same host, other port: keys must use the full address
 SRC_NAME = {v: k for k, v in SOURCES.items()}
 # registrations: name -> filter tuple (sid, iid, maj, minor) or None for watch-all
-REGS = {"F1": (0x1111, 0xFFFF, 0xFF, 0xFFFFFFFF), "F2": (0x1111, 1, 1, 0xFFFFFFFF), "ALL": None, "F3": (0x2222, 0xFFFF, 1, 7)}
+REGS = {"F1": (0x1111, 0xFFFF, 0xFF, 0xFFFFFFFF), "F2": (0x1111, 1, 1, 0xFFFFFFFF), "ALL": None, "F3": (0x2222, 0xFFFF, 1, 7),
+        "F4": (0x1111, 0xFFFF, 0xFF, 0)}  # any instance, any major, pinned minor
 
 
 def fmatch(f, s):
